@@ -29,6 +29,14 @@ ASSUMPTIONS = [
     "(np.array raises): counted as no result, as are expressions that raise on the view (reflected operands 1 + v, -v, v.sum())",
     "numpy resolves slices, masks and index lists to positions; the model receives the positions",
     "binary64 evaluation of (x * scale) + offset is numpy's; the model carries (scale index, offset index, x) symbolically",
+    "a view handed over as a KEYWORD argument (where=view, out=view, weights=view, bins=view) is not converted by __array_ufunc__ / "
+    "__array_function__ (positional arguments only): numpy dispatches on it again and the call ends in a RecursionError on the "
+    "unchanged views — no result, counted separately; a mask computed FROM a view (where=las.return_number != 0) is a plain array",
+    "without out=, the positions of a ufunc result where the where= mask is False are uninitialised in numpy itself: only the "
+    "positions where the mask is True are compared then; with out= every position is compared (buffers are pre-filled with a "
+    "non-zero pattern)",
+    "numpy 2.x itself crashes (SIGSEGV) on a comparison ufunc of a uint8 array with an out-of-range python int when out= and "
+    "where= are given (np.less(-1, a, out=o, where=m)): the keyword sweep keeps python ints within uint8",
 ]
 
 OPS = ["lt", "le", "gt", "ge", "eq", "ne", "add", "sub", "mul", "truediv", "floordiv"]     # order of all_ops in Model/Views.v
@@ -167,6 +175,8 @@ def apply_expr(e, x, env, side):
         for sub in e[1:]:
             x = apply_expr(sub, x, env, side)
         return x
+    if t == "call":
+        return apply_call(e, env, side)
     raise ValueError(f"expr {e}")
 
 
@@ -182,6 +192,8 @@ def expr_str(e):
         return f"v[{ix_str(e[1])}]"
     if t == "seq":
         return " |> ".join(expr_str(s) for s in e[1:])
+    if t == "call":
+        return e[1] + "(" + ", ".join([arg_str(a) for a in e[2]] + [f"{k}={arg_str(v)}" for k, v in sorted(e[3].items())]) + ")"
     return str(e)
 
 
@@ -215,6 +227,159 @@ def ix_str(s):
 
 
 # --------------------------------------------------------------------------------------------
+# calls: ["call", name, [argument specs], {keyword: argument spec}]
+#   numpy callables (functions, ufuncs and their methods) applied to SEVERAL arguments, any of which may be a view — of
+#   the record under test or of another record (data["others"]) — and to the optional keywords (out=, where=, dtype=,
+#   casting=, axis=, initial= ...).  On the numpy side every view is replaced by np.array(view).
+#   The value of a call is (what it returns, the contents of every buffer handed to it afterwards, which of the returned
+#   arrays ARE the buffers given as out=): positions of out= that numpy leaves untouched must be left untouched.
+# --------------------------------------------------------------------------------------------
+def sentinel(dtype, shape, salt=0):
+    """a buffer pre-filled with a recognisable pattern, never zeros"""
+    shape = tuple(shape)
+    i = np.arange(int(np.prod(shape)) if shape else 1)
+    dt = np.dtype(dtype)
+    if dt.kind == "b":
+        a = (i + salt) % 3 != 1
+    elif dt.kind in "iu":
+        a = (i * 37 + 11 + salt) % 120 + 1
+    elif dt.kind == "c":
+        a = (1000.5 + 3.0 * (i % 300) + salt) + 2j
+    else:
+        a = 1000.5 + 3.0 * (i % 300) + salt
+    return np.array(a).astype(dt).reshape(shape)
+
+
+def rec_env(env, i):
+    """the environment of record i: 0 = the record under test, k = data["others"][k - 1] (built on first use)"""
+    if i == 0:
+        return env
+    recs = env.setdefault("recs", {})
+    if i not in recs:
+        recs[i] = build(env["data"]["others"][i - 1])
+    return recs[i]
+
+
+def mk_arg(s, env, side, bufs):
+    t = s[0]
+    if t == "rec":       # ["rec", record, dimension, index spec | None]: a fresh handle; np.array(handle) on the numpy side
+        v = rec_env(env, s[1])["las"][s[2]]
+        if len(s) > 3 and s[3] is not None:
+            v = v[mk_index(s[3])]
+        if side == "view" or not is_view(v):
+            return v
+        return np.array(v)
+    if t == "fill":      # ["fill", dtype, shape, salt]: a buffer whose contents after the call are part of the result
+        b = sentinel(s[1], s[2], s[3] if len(s) > 3 else 0)
+        bufs.append(b)
+        return b
+    if t == "outrec":    # a view handed over as a buffer: its values after the call are part of the result
+        v = mk_arg(["rec"] + list(s[1:]), env, side, bufs)
+        bufs.append(v)
+        return v
+    if t == "lst":
+        return [mk_arg(q, env, side, bufs) for q in s[1]]
+    if t == "tup":
+        return tuple(mk_arg(q, env, side, bufs) for q in s[1])
+    if t == "cmp":       # ["cmp", operator, argument, operand]: e.g. where=las.return_number != 0
+        return getattr(operator, s[1])(mk_arg(s[2], env, side, bufs), mk_arg(s[3], env, side, bufs))
+    if t == "sorted":
+        return np.sort(mk_arg(s[1], env, side, bufs))
+    if t == "dtype":
+        return np.dtype(s[1])
+    if t == "lit":
+        return s[1]
+    return mk_operand(s, env, side)
+
+
+def arg_str(s):
+    t = s[0]
+    if t in ("rec", "outrec"):
+        r = f"las{s[1] or ''}.{s[2]}" + (f"[{ix_str(s[3])}]" if len(s) > 3 and s[3] is not None else "")
+        return r
+    if t == "fill":
+        return f"buffer({s[1]}, shape={s[2]})"
+    if t in ("lst", "tup"):
+        inner = ", ".join(arg_str(q) for q in s[1])
+        return "[" + inner + "]" if t == "lst" else "(" + inner + ("," if len(s[1]) == 1 else "") + ")"
+    if t == "cmp":
+        return f"{arg_str(s[2])} {SYM[s[1]]} {arg_str(s[3])}"
+    if t == "sorted":
+        return f"np.sort({arg_str(s[1])})"
+    if t == "dtype":
+        return f"np.{s[1]}"
+    if t == "lit":
+        return repr(s[1])
+    if t == "self":
+        return "v"
+    if t == "arr" and s[1] == "bool":
+        return "mask"
+    return opnd_str(s)
+
+
+CALL_SPECIAL = {
+    "np.r_": lambda *a: np.r_[tuple(a)], "np.c_": lambda *a: np.c_[tuple(a)],
+    "operator.add": operator.add, "operator.sub": operator.sub, "operator.mul": operator.mul, "operator.truediv": operator.truediv,
+    "operator.floordiv": operator.floordiv, "operator.lt": operator.lt, "operator.le": operator.le, "operator.eq": operator.eq,
+    "operator.ne": operator.ne, "operator.ge": operator.ge, "operator.gt": operator.gt,
+    "method.max": lambda x, *a, **k: x.max(*a, **k), "method.min": lambda x, *a, **k: x.min(*a, **k),
+}
+
+
+def np_callable(name):
+    if name in CALL_SPECIAL:
+        return CALL_SPECIAL[name]
+    parts = name.split(".")
+    if parts[0] != "np":
+        raise ValueError(name)
+    obj = np
+    for q in parts[1:]:
+        obj = getattr(obj, q)
+    return obj
+
+
+def only_written(q, where):
+    """without out=, positions where the mask is False are uninitialised in numpy itself: only the others are compared"""
+    try:
+        return np.where(np.broadcast_to(np.asarray(where, dtype=bool), np.shape(q)), q, np.zeros((), dtype=np.asarray(q).dtype))
+    except Exception:
+        return q
+
+
+def has_view(s):
+    """a view handed over as such (not through a comparison / np.sort, which give plain arrays)"""
+    t = s[0]
+    if t in ("rec", "outrec", "self", "view"):
+        return True
+    if t in ("lst", "tup"):
+        return any(has_view(q) for q in s[1])
+    return False
+
+
+def keyword_views(e):
+    """a view as a KEYWORD argument (where=, out=, weights=, bins= ...): the two protocols convert the positional arguments only,
+    numpy dispatches again on the keyword and the call ends in a RecursionError on the unchanged views: no result"""
+    return e[0] == "call" and any(has_view(v) for v in e[3].values())
+
+
+def apply_call(e, env, side):
+    _, name, args, kw = e
+    bufs = []
+    f = np_callable(name)
+    a = [mk_arg(s, env, side, bufs) for s in args]
+    k = {key: mk_arg(kw[key], env, side, bufs) for key in sorted(kw)}
+    r = f(*a, **k)
+    outs = k.get("out")
+    outs = tuple(o for o in (outs if isinstance(outs, tuple) else (outs,)) if o is not None)
+    rets = r if isinstance(r, tuple) else (r,)
+    is_out = [any(q is o for o in outs) for q in rets]
+    if "where" in k and isinstance(f, np.ufunc):
+        rets = tuple(q if io else only_written(q, k["where"]) for q, io in zip(rets, is_out))
+        r = rets if isinstance(r, tuple) else rets[0]
+    return (r, tuple(bufs), [bool(q) for q in is_out])
+
+
+# --------------------------------------------------------------------------------------------
 # data specs -> records and views
 # --------------------------------------------------------------------------------------------
 def sub_fields():
@@ -239,20 +404,25 @@ def build(data):
     if data["kind"] == "subfield":
         fmt, name = data["format"], data["field"]
         composed, mask = [(c, m) for f, n, c, m in sub_fields() if f == fmt and n == name][0]
-        col = np.frombuffer(bytes.fromhex(data["bytes"]), dtype=np.uint8)
+        if "pattern" in data:        # ["pattern", n, a, b]: byte i is (i * a + b) % 256 (large records, not spelt out in the replay)
+            _, n_, pa, pb = data["pattern"]
+            col = ((np.arange(n_, dtype=np.int64) * pa + pb) % 256).astype(np.uint8)
+        else:
+            col = np.frombuffer(bytes.fromhex(data["bytes"]), dtype=np.uint8)
         n = len(col)
         hdr = laspy.LasHeader(point_format=fmt, version=pdims.preferred_file_version_for_point_format(fmt))
         las = laspy.LasData(hdr)
         rec = laspy.PackedPointRecord.zeros(n, hdr.point_format)
         size = rec.array.dtype.itemsize
-        rec.array = ((np.arange(n * size, dtype=np.int64) * 37 + 11) % 251).astype(np.uint8).view(rec.array.dtype).copy()
+        # byte i of the record's memory is (i * 37 + 11) % 251 (period 251)
+        rec.array = np.resize(((np.arange(251, dtype=np.int64) * 37 + 11) % 251).astype(np.uint8), n * size).view(rec.array.dtype).copy()
         rec.array[composed] = col
         las.points = rec
         lsb = lsb_of(mask)
         via = data.get("via", "item")
         get = {"item": lambda: las[name], "attr": lambda: getattr(las, name), "record": lambda: las.points[name]}[via]
         return {"las": las, "get": get, "raw": lambda: (las.points.array[composed] & mask) >> lsb, "composed": composed, "mask": mask,
-                "name": name, "kind": "subfield"}
+                "name": name, "kind": "subfield", "data": data}
     if data["kind"] == "scaled":
         fmt = data["format"]
         hdr = laspy.LasHeader(point_format=fmt, version=pdims.preferred_file_version_for_point_format(fmt))
@@ -263,9 +433,17 @@ def build(data):
             hdr.add_extra_dim(laspy.ExtraBytesParams(ex["name"], ex["type"], scales=np.array([unfhex(s) for s in ex["scales"]]),
                                                      offsets=np.array([unfhex(s) for s in ex["offsets"]])))
         las = laspy.LasData(hdr)
-        n = len(data["xyz"][0])
+        xyz = data["xyz"]
+        if xyz and xyz[0] == "pattern":      # ["pattern", n, a, b]: X[i] = (i * a + b) wrapped to int32, Y and Z shifted
+            _, n_, pa, pb = xyz
+            base = np.arange(n_, dtype=np.int64) * pa + pb
+            xyz = [base, base * 3 + 1, base * 5 + 2]
+        n = len(xyz[0])
         rec = laspy.ScaleAwarePointRecord.zeros(n, header=hdr)
-        for nm, vals in zip("XYZ", data["xyz"]):
+        if data.get("noise") is not None:    # the other dimensions (bit fields, classification, intensity ...) hold non-trivial values
+            size = rec.array.dtype.itemsize
+            rec.array = np.resize(((np.arange(251, dtype=np.int64) * 37 + 11 + data["noise"]) % 251).astype(np.uint8), n * size).view(rec.array.dtype).copy()
+        for nm, vals in zip("XYZ", xyz):
             rec.array[nm] = np.array(vals, dtype=np.int64).astype(np.int32)
         if ex:
             dt = rec.array.dtype[ex["name"]]
@@ -287,7 +465,7 @@ def build(data):
             raw = lambda: (las.points.array[dim] * sc) + of               # noqa: E731
             grid = lambda: las.points.array[dim]                          # noqa: E731
             svec, ovec = list(sc), list(of)
-        return {"las": las, "get": get, "raw": raw, "grid": grid, "name": dim, "kind": "scaled", "svec": svec, "ovec": ovec}
+        return {"las": las, "get": get, "raw": raw, "grid": grid, "name": dim, "kind": "scaled", "svec": svec, "ovec": ovec, "data": data}
     raise ValueError(data["kind"])
 
 
@@ -364,6 +542,33 @@ def describe(r):
     return f"{a.dtype}{list(a.shape)} {np.array2string(a.ravel()[:12], separator=',', threshold=12)}"[:160]
 
 
+def first_difference(x, y, path=""):
+    """where two results differ (a position of an array, a component of a tuple)"""
+    try:
+        if isinstance(x, (tuple, list)) and isinstance(y, (tuple, list)) and len(x) == len(y):
+            for i, (p, q) in enumerate(zip(x, y)):
+                if not same_value(p, q):
+                    return first_difference(p, q, f"{path}[{i}]")
+            return ""
+        ax, ay = np.asarray(x), np.asarray(y)
+        where = f"component {path} of the result: " if path else ""
+        if squeeze_shape(ax) != squeeze_shape(ay) or kind_class(ax) != kind_class(ay):
+            return f"{where}{ax.dtype}{list(ax.shape)} against {ay.dtype}{list(ay.shape)}; "
+        fx, fy = ax.ravel(), ay.ravel()
+        if kind_class(ax) in "fc":
+            ne = ~((fx == fy) | (np.isnan(fx) & np.isnan(fy)))
+            ne |= (np.signbit(fx.real) != np.signbit(fy.real)) & (fx == 0)
+        else:
+            ne = fx != fy
+        bad = np.flatnonzero(ne)
+        if len(bad):
+            i = int(bad[0])
+            return f"{where}{len(bad)} of {len(fx)} positions differ, first at {i}: view {fx[i]!r}, numpy {fy[i]!r}; "
+    except Exception:
+        pass
+    return ""
+
+
 def run_case(data, expr, env=None):
     """-> (verdict, detail); verdict: same | noresult (both raise) | viewraises | unmat | differs | npraises"""
     env = env or build(data)
@@ -375,7 +580,7 @@ def run_case(data, expr, env=None):
     if rv[0] == "ok" and ra[0] == "ok":
         if same_value(rv[1], ra[1]):
             return "same", None
-        return "differs", f"{expr_str(expr)}: view gives {describe(rv)}, numpy on np.array(view) gives {describe(ra)}"
+        return "differs", f"{expr_str(expr)}: {first_difference(rv[1], ra[1])}view gives {describe(rv)}, numpy on np.array(view) gives {describe(ra)}"
     if rv[0] == "ok":
         return "npraises", f"{expr_str(expr)}: view gives {describe(rv)}, numpy on np.array(view) raises {ra[1]} ({ra[2]})"
     if rv[0] == "unmat":
@@ -436,7 +641,10 @@ def other_operands(n, mask_or_none, rng, names):
     maxv = (mask_or_none >> lsb_of(mask_or_none)) if mask_or_none else 7
     out = [["bool", True], ["bool", False], ["npbool", True], ["npbool", False]]
     out += [["float", fhex(x)] for x in (0.0, 0.5, 1.0, float(maxv), maxv + 0.5, -0.5, 2.0 ** 70, float("nan"), float("inf"), float("-inf"))]
-    out += [["npfloat", "float32", fhex(1.5)], ["npfloat", "float16", fhex(2.0)], ["npfloat", "float64", fhex(float(maxv))]]
+    # non-integral constants on both sides of every value of the field, of both signs, tiny, next to the byte's range
+    out += [["float", fhex(x)] for x in sorted({1.5, 2.5, maxv - 0.5, maxv + 0.25, -1.5, 0.999, 1e-300, -1e-300, 254.5, 255.5, 256.5, (maxv + 1) / 2 + 0.5})]
+    out += [["npfloat", "float32", fhex(1.5)], ["npfloat", "float16", fhex(2.0)], ["npfloat", "float64", fhex(float(maxv))],
+            ["npfloat", "float64", fhex(2.5)], ["npfloat", "float32", fhex(-0.5)], ["npfloat", "float16", fhex(0.5)], ["npfloat", "float64", fhex(maxv + 0.5)]]
     ints = [(i * 7 + 3) % (maxv + 2) for i in range(n)]
     out += [["arr", "int64", [n], ints], ["arr", "uint8", [n], ints], ["arr", "int8", [n], [v - 1 for v in ints]],
             ["arr", "uint64", [n], [v + (2 ** 63 if i % 5 == 0 else 0) for i, v in enumerate(ints)]],
@@ -597,11 +805,12 @@ class Sweep:
     def check(self, kind, data, expr, env, canon, quiet_viewraises=False):
         verdict, detail = run_case(data, expr, env)
         ctx = self.ctx
+        quiet_viewraises = quiet_viewraises or keyword_views(expr)
         ctx.count(" ".join(kind.split(" ")[:2]))
         if verdict in ("noresult", "viewraises", "unmat"):
             ctx.count("no result: " + {"noresult": "raises on both sides", "viewraises": "view raises", "unmat": "result not materialisable"}[verdict])
         ctx.case(canon, nontrivial=(verdict == "same"),
-                 sample={"data": {q: data[q] for q in data if q not in ("bytes", "xyz", "extra")}, "expr": expr_str(expr), "verdict": verdict}
+                 sample={"data": {q: data[q] for q in data if q not in ("bytes", "xyz", "extra", "others")}, "expr": expr_str(expr), "verdict": verdict}
                  if verdict == "same" and ctx.rng.random() < 0.0005 else None)
         if verdict in ("differs", "npraises"):
             k = kind + (" (numpy raises)" if verdict == "npraises" else "")
@@ -911,6 +1120,470 @@ def run_stale_any(data, expr, mut):
     return None
 
 
+# --------------------------------------------------------------------------------------------
+# calls with the optional keywords of numpy (out=, where=, dtype=, casting=, axis=, initial= ...)
+# --------------------------------------------------------------------------------------------
+UF_BINARY = ["add", "subtract", "multiply", "divide", "floor_divide", "maximum", "minimum", "fmax", "hypot", "arctan2", "power",
+             "remainder", "fmod", "copysign", "less", "less_equal", "equal", "not_equal", "greater", "greater_equal", "logical_and",
+             "logical_xor", "bitwise_and", "bitwise_or", "left_shift", "right_shift", "heaviside", "gcd"]
+UF_UNARY = ["negative", "positive", "absolute", "sqrt", "square", "floor", "ceil", "rint", "sign", "isnan", "isfinite", "logical_not",
+            "invert", "reciprocal", "signbit", "cbrt", "log1p", "exp2"]
+UF_TWO_OUT = [("modf", 1), ("frexp", 1), ("divmod", 2)]          # (name, number of inputs), two outputs
+OUT_DTYPES = ["float64", "float64", "float32", "int64", "uint8", "bool", "complex128", "float16", "int8"]
+
+
+def some_mask(rng, n, tail=()):
+    """a mask of shape (n, 1, ..) with True and False entries whenever n >= 2"""
+    m = [rng.random() < 0.5 for _ in range(n)]
+    if n >= 2 and all(m):
+        m[rng.randrange(n)] = False
+    if n >= 2 and not any(m):
+        m[rng.randrange(n)] = True
+    return ["arr", "bool", [n] + [1] * len(tail), m]
+
+
+def kw_variants(rng, shape, nout, bit_view, out_view, cmp_src):
+    """-> [(class, keywords, quiet)]: the optional keywords of a ufunc call on operands of the given shape with nout outputs.
+    quiet: calls the unchanged views refuse (a view as where= / out= ends in a RecursionError): no result"""
+    shape = list(shape)
+    n, tail = shape[0], shape[1:]
+
+    def outs(dt, shp=None):
+        one = [["fill", dt, shape if shp is None else shp, j] for j in range(nout)]
+        return one[0] if nout == 1 else ["tup", one]
+    mask = some_mask(rng, n, tail)
+    full = ["arr", "bool", shape, [rng.random() < 0.6 for _ in range(int(np.prod(shape)))]]
+    odt = rng.choice(OUT_DTYPES[2:])
+    v = [("out", {"out": outs("float64")}, False),
+         ("out where", {"out": outs("float64"), "where": mask}, False),
+         ("out where", {"out": outs(rng.choice(OUT_DTYPES)), "where": full}, False),
+         # the idiom np.divide(a, v, out=fill, where=v != 0); comparisons of SCALED views are excluded by the property: there
+         # the mask is computed from a plain dimension of the record
+         ("out where(v != 0)", {"out": outs("float64"), "where": ["cmp", "ne", cmp_src, ["int", "0"]]}, False),
+         ("out where(v > c)", {"out": outs("float64"), "where": ["cmp", "gt", cmp_src, ["int", "1"]]}, False),
+         ("where", {"where": mask}, False),
+         ("dtype", {"dtype": ["dtype", rng.choice(OUT_DTYPES)]}, False),
+         ("out dtype", {"out": outs(odt)}, False),
+         ("out casting", {"out": outs(odt), "casting": ["lit", "unsafe"]}, False),
+         ("out where casting", {"out": outs(odt), "where": mask, "casting": ["lit", "unsafe"]}, False),
+         ("out where dtype", {"out": outs("float64"), "where": mask, "dtype": ["dtype", rng.choice(["float64", "float32"])]}, False),
+         ("casting", {"casting": ["lit", rng.choice(["no", "equiv", "safe", "same_kind", "unsafe"])]}, False),
+         ("out where(scalar)", {"out": outs("float64"), "where": ["lit", rng.choice([False, True])]}, False),
+         ("out broadcast where", {"out": outs("float64", [2] + shape), "where": mask}, False),
+         ("subok order", {"subok": ["lit", False], "order": ["lit", "C"]}, False),
+         ("out where(view)", {"out": outs("float64"), "where": ["rec", 0, bit_view]}, True),
+         ("out(view)", {"out": ["outrec", 0, out_view] if nout == 1 else ["tup", [["outrec", 0, out_view], ["fill", "float64", shape, 1]]]}, True)]
+    if nout == 1:
+        v.append(("out tuple where", {"out": ["tup", [["fill", "float64", shape, 0]]], "where": mask}, False))
+    else:
+        v.append(("out partial where", {"out": ["tup", [["fill", "float64", shape, 0], ["none"]]], "where": mask}, False))
+        v.append(("out partial", {"out": ["tup", [["none"], ["fill", "float64", shape, 0]]]}, False))
+    return v
+
+
+def other_inputs(rng, shape, others_dim, sibling):
+    """the second input of a binary ufunc: constants of several representations, arrays, views"""
+    shape = list(shape)
+    cnt = int(np.prod(shape))
+    # python ints stay inside uint8: numpy 2.x itself dies (SIGSEGV) on a comparison ufunc of a uint8 array with an out-of-range
+    # python int when where= and out= are given, e.g. np.less(-1, a, out=o, where=m) — nothing laspy is involved in
+    return [(["int", str(rng.choice([0, 1, 2, 3]))], "python int"), (["float", fhex(rng.choice([0.5, 2.5, -1.5, 1e-3]))], "float"),
+            (["np", rng.choice(INT_DTYPES), str(rng.choice([1, 2, 7]))], "numpy int"), (["npfloat", "float32", fhex(1.5)], "numpy float"),
+            (["arr", "int64", shape, [(i * 5 + 1) % 7 for i in range(cnt)]], "int array"),
+            (["arr", "float64", shape, [fhex((i * 0.37) - 1.0) for i in range(cnt)]], "float array"),
+            (["arr", "uint8", [shape[0]] + [1] * (len(shape) - 1), [(i * 3) % 5 for i in range(shape[0])]], "uint8 array"),
+            (["rec", 0, sibling], "other view"), (["rec", 1, others_dim], "view of another record")]
+
+
+def sweep_keyword_calls(sw, data, env, tag, sibling, bit_view, others_dim):
+    """ufuncs (unary, binary, two outputs; __call__, reduce, accumulate, outer, reduceat, at) and numpy functions with the
+    optional keywords, the view as first / second / both inputs / as the mask / as the output buffer"""
+    ctx, rng = sw.ctx, sw.ctx.rng
+    shape = list(env["get"]().shape)
+    n, tail = shape[0], shape[1:]
+    me = ["self"]
+    seq = [0]
+    own = data["dim"] if data["kind"] == "scaled" else data["field"]
+    cmp_src = ["self"] if data["kind"] == "subfield" else ["rec", 0, "intensity"] if not tail else ["arr", "int64", [n, 1], [i % 3 for i in range(n)]]
+
+    def go(cls, name, args, kw, quiet=False, fresh=False):
+        seq[0] += 1
+        sw.check(f"keyword-call {tag} {name} {cls}", data, ["call", name, args, kw], None if fresh else env,
+                 ("kwc", tag, data.get("case"), seq[0], name, cls), quiet_viewraises=quiet)
+    thorough = ctx.thorough()
+    for name in UF_BINARY:
+        oth = other_inputs(rng, shape, others_dim, sibling)
+        kws = kw_variants(rng, shape, 1, bit_view, own, cmp_src)
+        plain = [q for q in oth if q[1] not in ("other view", "view of another record")]
+        positions = [("(v, c)", lambda o: [me, o]), ("(c, v)", lambda o: [o, me]), ("(v, v)", lambda o: [me, me])]
+        # every keyword class at a random position, every position / operand class with random keyword classes
+        for kc, kw, quiet in kws:
+            if quiet and not thorough and rng.random() < 0.75:
+                continue        # a RecursionError of 1000 frames each: a sample in the quick tier
+            pos, mk = rng.choice(positions)
+            go(f"{pos} {kc}", "np." + name, mk(rng.choice(plain)[0]), kw, quiet, fresh=kc == "out(view)")
+        for o, oc in oth:
+            for pos, mk in (positions if thorough else [rng.choice(positions[:2])]):
+                for kc, kw, quiet in rng.sample(kws[:15], 3 if not thorough else 6):
+                    go(f"{pos} {kc} [{oc}]", "np." + name, mk(o), kw, quiet)
+    for name in UF_UNARY:
+        for kc, kw, quiet in kw_variants(rng, shape, 1, bit_view, own, cmp_src):
+            if quiet and not thorough and rng.random() < 0.75:
+                continue
+            go(f"(v) {kc}", "np." + name, [me], kw, quiet, fresh=kc == "out(view)")
+    for name, nin in UF_TWO_OUT:
+        for kc, kw, quiet in kw_variants(rng, shape, 2, bit_view, own, cmp_src):
+            args = [me] if nin == 1 else rng.choice([[me, ["int", "3"]], [["arr", "int64", shape, [(i % 5) + 1 for i in range(int(np.prod(shape)))]], me], [me, me]])
+            go(f"{'(v)' if nin == 1 else '(v, c)'} {kc}", "np." + name, args, kw, quiet, fresh=kc == "out(view)")
+    # methods of ufuncs
+    m1 = some_mask(rng, n, tail)
+    go("reduce out", "np.add.reduce", [me], {"out": ["fill", "float64", tail, 0]})
+    go("reduce axis out where", "np.maximum.reduce", [me], {"axis": ["lit", 0], "out": ["fill", "float64", tail, 0], "where": m1, "initial": ["float", fhex(-5.5)]})
+    go("reduce where initial", "np.minimum.reduce", [me], {"where": m1, "initial": ["float", fhex(1e12)]})
+    go("reduce dtype keepdims", "np.add.reduce", [me], {"dtype": ["dtype", "float32"], "keepdims": ["lit", True]})
+    go("reduce axis=None out", "np.add.reduce", [me], {"axis": ["none"], "out": ["fill", "float64", [], 0]})
+    go("accumulate out", "np.add.accumulate", [me], {"out": ["fill", "float64", shape, 0]})
+    go("accumulate dtype", "np.multiply.accumulate", [me], {"dtype": ["dtype", "float64"]})
+    go("outer out", "np.multiply.outer", [me, ["arr", "int64", [2], [1, 2]]], {"out": ["fill", "float64", shape + [2], 0]})
+    go("outer (c, v)", "np.subtract.outer", [["arr", "float64", [2], [fhex(0.5), fhex(2.0)]], me], {})
+    if n >= 2:
+        go("reduceat", "np.add.reduceat", [me, ["arr", "int64", [2], [0, n // 2]]], {})
+        go("reduceat out", "np.add.reduceat", [me, ["arr", "int64", [2], [0, n // 2]]], {"out": ["fill", "float64", [2] + tail, 0]})
+    if n >= 1:
+        go("at (values)", "np.add.at", [["fill", "float64", shape, 0], ["arr", "int64", [n], list(range(n))[::-1]], me], {})
+        go("at (values, repeated index)", "np.subtract.at", [["fill", "float64", shape, 0], ["arr", "int64", [n], [i // 2 for i in range(n)]], me], {})
+        if data["kind"] == "subfield":
+            go("at (indices)", "np.add.at", [["fill", "int64", [256], 0], me, ["int", "1"]], {})
+    # numpy functions with out= / where= / dtype=
+    go("np.sum out", "np.sum", [me], {"out": ["fill", "float64", [], 0]})
+    go("np.sum axis out", "np.sum", [me], {"axis": ["lit", 0], "out": ["fill", "float64", tail, 0]})
+    go("np.sum where", "np.sum", [me], {"where": m1})
+    go("np.sum dtype", "np.sum", [me], {"dtype": ["dtype", rng.choice(["float32", "int64", "uint8", "float64"])]})
+    go("np.max out where initial", "np.max", [me], {"axis": ["lit", 0], "out": ["fill", "float64", tail, 0], "where": m1, "initial": ["float", fhex(-3.25)]})
+    go("np.min out", "np.min", [me], {"axis": ["lit", 0], "out": ["fill", "float64", tail, 0]}) if n else None
+    go("method max out", "method.max", [me], {"axis": ["lit", 0], "out": ["fill", "float64", tail, 0]}) if n else None
+    go("method min where initial", "method.min", [me], {"where": m1, "initial": ["float", fhex(1e9)]})
+    go("np.mean out where", "np.mean", [me], {"axis": ["lit", 0], "out": ["fill", "float64", tail, 0], "where": m1})
+    go("np.mean dtype", "np.mean", [me], {"dtype": ["dtype", "float32"]})
+    go("np.clip out", "np.clip", [me, ["int", "1"], ["float", fhex(3.5)]], {"out": ["fill", "float64", shape, 0]})
+    go("np.clip where", "np.clip", [me, ["int", "1"], ["int", "3"]], {"out": ["fill", "float64", shape, 0], "where": m1})
+    go("np.cumsum out", "np.cumsum", [me], {"axis": ["lit", 0], "out": ["fill", "float64", shape, 0]})
+    go("np.cumprod dtype", "np.cumprod", [me], {"axis": ["lit", 0], "dtype": ["dtype", "float64"]})
+    go("np.round out", "np.round", [me, ["lit", 1]], {"out": ["fill", "float64", shape, 0]})
+    go("np.concatenate out", "np.concatenate", [["lst", [me, me]]], {"out": ["fill", "float64", [2 * n] + tail, 0]})
+    go("np.concatenate dtype", "np.concatenate", [["lst", [me, me]]], {"dtype": ["dtype", rng.choice(["float32", "int64", "float64"])], "casting": ["lit", "unsafe"]})
+    go("np.concatenate axis=None", "np.concatenate", [["tup", [me, me]]], {"axis": ["none"]})
+    go("np.stack out", "np.stack", [["lst", [me, me]]], {"out": ["fill", "float64", [2] + shape, 0]})
+    go("np.stack axis", "np.stack", [["lst", [me, me]]], {"axis": ["lit", -1]})
+    if n >= 1:
+        go("np.take out", "np.take", [me, ["lit", [0, -1]]], {"axis": ["lit", 0], "out": ["fill", "float64", [2] + tail, 0]})
+        go("np.take mode", "np.take", [me, ["lit", [0, n + 3]]], {"axis": ["lit", 0], "mode": ["lit", "clip"]})
+    cnt = sum(m1[3])
+    go("np.compress out", "np.compress", [["arr", "bool", [n], m1[3]], me], {"axis": ["lit", 0], "out": ["fill", "float64", [cnt] + tail, 0]})
+    go("np.copyto where", "np.copyto", [["fill", "float64", shape, 0], me], {"where": m1})
+    go("np.copyto casting", "np.copyto", [["fill", rng.choice(["int64", "uint8", "float32"]), shape, 0], me], {"casting": ["lit", "unsafe"]})
+    go("np.putmask", "np.putmask", [["fill", "float64", shape, 0], ["arr", "bool", shape, [i % 3 == 0 for i in range(int(np.prod(shape)))]], me], {})
+    go("np.put", "np.put", [["fill", "float64", [n + 2], 0], ["lit", list(range(min(n, 3)))], me], {})
+    go("np.place", "np.place", [["fill", "float64", shape, 0], ["arr", "bool", shape, [i % 2 == 0 for i in range(int(np.prod(shape)))]], me], {})
+    go("np.argmax out", "np.argmax", [me], {"axis": ["lit", 0], "out": ["fill", "int64", tail, 0]}) if n else None
+    go("np.any out", "np.any", [me], {"axis": ["lit", 0], "out": ["fill", "bool", tail, 0]})
+    go("np.std out", "np.std", [me], {"axis": ["lit", 0], "out": ["fill", "float64", tail, 0], "ddof": ["lit", 0]})
+    go("np.dot out", "np.dot", [me, ["arr", "float64", [tail[0] if tail else n], [fhex(i + 0.5) for i in range(tail[0] if tail else n)]]],
+       {"out": ["fill", "float64", [n] if tail else [], 0]})
+    go("np.histogram bins(view)", "np.histogram", [["arr", "float64", [3], [fhex(0.5), fhex(2.0), fhex(5.0)]]], {"bins": ["sorted", ["rec", 0, sibling]]})
+    go("np.histogram weights(view)", "np.histogram", [["arr", "float64", [n], [fhex(i * 0.5) for i in range(n)]]], {"bins": ["lit", 3], "weights": me}) if not tail else None
+    go("np.average weights(view)", "np.average", [["arr", "float64", shape, [fhex(i + 1.0) for i in range(int(np.prod(shape)))]]], {"weights": me})
+    go("np.full_like", "np.full_like", [me, ["float", fhex(2.5)]], {})
+    go("np.zeros_like dtype", "np.zeros_like", [me], {"dtype": ["dtype", "float32"]})
+    go("np.where(view mask)", "np.where", [["rec", 0, bit_view], me, ["int", "-1"]], {})
+    go("np.where(view mask, c, v)", "np.where", [["rec", 0, bit_view], ["float", fhex(0.5)], me], {}) if not tail else None
+    for dt in ("bool", "int64", "uint8", "float32", "float64", "complex128", "int8", "uint16"):
+        go(f"np.asarray dtype={dt}", "np.asarray", [me], {"dtype": ["dtype", dt]})
+        go(f"np.array dtype={dt}", "np.array", [me], {"dtype": ["dtype", dt], "copy": ["lit", True]})
+    go("np.asarray(dtype) positional", "np.asarray", [me, ["dtype", "bool"]], {})
+    go("np.asanyarray dtype", "np.asanyarray", [me], {"dtype": ["dtype", "float32"]})
+    go("np.ascontiguousarray dtype", "np.ascontiguousarray", [me], {"dtype": ["dtype", "int64"]})
+    go("np.array ndmin", "np.array", [me], {"ndmin": ["lit", 2]})
+
+
+def first_bit_view(fmt):
+    import laspy.point.dims as dims
+    for subs in dims.COMPOSED_FIELDS[fmt].values():
+        for sf in subs:
+            if int(sf.mask) >> lsb_of(int(sf.mask)) == 1:
+                return sf.name
+    return "return_number"
+
+
+def rand_subfield_data(rng, sfs, n, fmt=None, name=None):
+    if fmt is None:
+        fmt, name, composed, mask = rng.choice(sfs)
+    elif name is None:
+        fmt, name, composed, mask = rng.choice([q for q in sfs if q[0] == fmt])
+    mask = [m for f, q, c, m in sfs if f == fmt and q == name][0]
+    col = bytes(rng.choice([0, 0xFF, mask, (~mask) & 0xFF, rng.randrange(256), rng.randrange(256), rng.randrange(256)]) for _ in range(n))
+    return {"kind": "subfield", "format": fmt, "field": name, "bytes": col.hex(), "via": rng.choice(["item", "attr", "record"])}
+
+
+def sweep_keywords(sw, sfs):
+    ctx, rng = sw.ctx, sw.ctx.rng
+    case = 0
+    picks = [(0, "return_number"), (6, "return_number"), (rng.choice([1, 3]), "number_of_returns"), (rng.choice([6, 7, 8]), "scanner_channel")]
+    picks += [tuple(rng.choice(sfs)[:2]) for _ in range(ctx.n(3, 30))]
+    for fmt, name in picks:
+        if not any(f == fmt and q == name for f, q, c, m in sfs):
+            continue
+        n = rng.choice([1, 2, 9, 9, 33])
+        data = rand_subfield_data(rng, sfs, n, fmt, name)
+        case += 1
+        data["case"] = case
+        data["others"] = [rand_subfield_data(rng, sfs, n, rng.choice([fmt, fmt, rng.choice([0, 1, 6, 7])]))]
+        env = build(data)
+        names = [q for f, q, c, m in sfs if f == fmt and q != name]
+        sweep_keyword_calls(sw, data, env, "subfield", rng.choice(names), first_bit_view(fmt), data["others"][0]["field"])
+    for it in range(ctx.n(5, 40)):
+        dim = ["x", "e", "e", "z", "e"][it % 5]
+        k = [None, 1, 3, None, 2][it % 5]
+        n = rng.choice([1, 2, 5, 12])
+        data = rand_scaled_data(rng, dim=dim, n=n, k=k)
+        case += 1
+        data["case"] = case
+        data["noise"] = rng.randrange(200)
+        other = rand_scaled_data(rng, dim=dim, n=n, k=k, t=data["extra"]["type"].lstrip("123") if dim == "e" else None)
+        other["format"] = data["format"]
+        data["others"] = [other]
+        env = build(data)
+        shape = tuple(env["get"]().shape)
+        multi = len(shape) > 1
+        tag = "scaled" + ("" if not multi else f" {shape[1]}-element") + (" xyz" if data["dim"] in "xyz" else " extra" if not multi else "")
+        sibling = rng.choice([d for d in "xyz" if d != data["dim"]]) if not multi else data["dim"]
+        sweep_keyword_calls(sw, data, env, tag, sibling, first_bit_view(data["format"]), other["dim"])
+
+
+# --------------------------------------------------------------------------------------------
+# numpy functions taking SEVERAL views: of one record, of different records whose scalings are identical / nearly equal /
+# different, sub-fields of the same byte, of different bytes, of different formats (same name, another mask)
+# --------------------------------------------------------------------------------------------
+CLOSENESS = ["identical", "1 ulp apart", "1e-9 relative apart", "1e-6 relative apart", "one grid step of offset apart", "offsets 1.0 apart",
+             "clearly different"]
+
+
+def nudge(rng, s, o, how):
+    """(scale, offset) of another record relative to (s, o)"""
+    if how == "identical":
+        return s, o
+    if how == "1 ulp apart":
+        w = rng.choice(["s", "o", "so"])
+        return (float(np.nextafter(s, np.inf)) if "s" in w else s), (float(np.nextafter(o, rng.choice([-np.inf, np.inf]))) if "o" in w else o)
+    if how in ("1e-9 relative apart", "1e-6 relative apart"):
+        eps = 1e-9 if "9" in how else 1e-6
+        w = rng.choice(["s", "o", "so"])
+        return (s * (1 + eps) if "s" in w else s), ((o * (1 + eps) if o else eps) if "o" in w else o)
+    if how == "one grid step of offset apart":
+        return s, o + s
+    if how == "offsets 1.0 apart":
+        return s, o + rng.choice([1.0, -1.0])
+    return rng.choice([q for q in SCALES if q != s]), rng.choice([q for q in OFFSETS if q != o])
+
+
+def spread_grid(rng, n, t="int32"):
+    """stored integers over the whole range of the type: a scaling that differs in the last bit shows"""
+    if t.startswith("float"):
+        return [rng.choice([1, -1]) * rng.randrange(10 ** 3, 10 ** 6) for _ in range(n)]
+    info = np.iinfo(t)
+    hi, lo = int(info.max), int(info.min)
+    return [rng.choice([hi, lo, hi - rng.randrange(min(1000, hi - lo)), rng.randrange(lo, hi + 1), rng.randrange(lo, hi + 1), rng.randrange(hi // 2, hi + 1)]) for _ in range(n)]
+
+
+def scaled_family(rng, how, dim, k, n, m):
+    """primary record and two others (n and m points) whose scaling of `dim` relates to the primary's as `how`; inside the
+    primary record the next coordinate relates to `dim` the same way (x and y of one file with close offsets)"""
+    fmt = rng.choice([0, 1, 3, 6, 7])
+    t = rng.choice(GRID_TYPES) if dim == "e" else "int32"
+
+    def one(cnt, scs, ofs, exs, exo, noise):
+        d = {"kind": "scaled", "format": fmt, "scales": [fhex(q) for q in scs], "offsets": [fhex(q) for q in ofs],
+             "xyz": [spread_grid(rng, cnt) for _ in range(3)], "via": rng.choice(["item", "attr", "record"]), "noise": noise,
+             "dim": dim if dim != "e" else "edim"}
+        if dim == "e":
+            d["extra"] = {"name": "edim", "type": (str(k) if k > 1 else "") + t, "scales": [fhex(q) for q in exs], "offsets": [fhex(q) for q in exo],
+                          "grid": [spread_grid(rng, k, t) for _ in range(cnt)], "k": k}
+        return d
+    i = "xyz".index(dim) if dim != "e" else 0
+    s0, o0 = rng.choice(SCALES), rng.choice(OFFSETS)
+    scs, ofs = [rng.choice(SCALES) for _ in range(3)], [rng.choice(OFFSETS) for _ in range(3)]
+    scs[i], ofs[i] = s0, o0
+    scs[(i + 1) % 3], ofs[(i + 1) % 3] = nudge(rng, s0, o0, how)
+    exs, exo = [rng.choice(SCALES) for _ in range(k or 1)], [rng.choice(OFFSETS) for _ in range(k or 1)]
+    prim = one(n, scs, ofs, exs, exo, rng.randrange(200))
+    others = []
+    for cnt in (n, m):
+        s2, o2 = list(scs), list(ofs)
+        s2[i], o2[i] = nudge(rng, s0, o0, how)
+        e2 = [nudge(rng, a, b, how if (j == 0 or rng.random() < 0.5) else "identical") for j, (a, b) in enumerate(zip(exs, exo))]
+        others.append(one(cnt, s2, o2, [q[0] for q in e2], [q[1] for q in e2], rng.randrange(200)))
+    prim["others"] = others
+    return prim
+
+
+def multi_view_calls(rng, n, m, tail, A, B, C, S, bit, scaled):
+    cmpA = A if not scaled else ["rec", 0, "intensity"] if not tail else ["arr", "int64", [n, 1], [i % 3 for i in range(n)]]
+    """-> [(name, callable name, args, keywords)]: A = the view under test, B = the same dimension of a record with as many points,
+    C = of a record with another number of points, S = another dimension of A's record, bit = a 1-bit field of A's record"""
+    L = lambda *q: ["lst", list(q)]       # noqa: E731
+    T = lambda *q: ["tup", list(q)]       # noqa: E731
+    h = n // 2
+    A1, A2 = A + [["slice", None, h, None]], A + [["slice", h, None, None]]
+    mask = some_mask(rng, n, tail)
+    out = [("concatenate [A, C]", "np.concatenate", [L(A, C)], {}), ("concatenate (C, A)", "np.concatenate", [T(C, A)], {}),
+           ("concatenate [A, B]", "np.concatenate", [L(A, B)], {}), ("concatenate [A, B, C]", "np.concatenate", [L(A, B, C)], {}),
+           ("concatenate [B, A, B]", "np.concatenate", [L(B, A, B)], {}),
+           ("concatenate axis=0", "np.concatenate", [L(A, C)], {"axis": ["lit", 0]}),
+           ("concatenate axis=None", "np.concatenate", [L(A, C)], {"axis": ["none"]}),
+           ("concatenate dtype", "np.concatenate", [L(A, C)], {"dtype": ["dtype", "float64"]}),
+           ("concatenate out", "np.concatenate", [L(A, C)], {"out": ["fill", "float64", [n + m] + tail, 0]}),
+           ("concatenate chunks of one record", "np.concatenate", [L(A1, A2)], {}),
+           ("concatenate chunks of two records", "np.concatenate", [L(A1, C, A2)], {}),
+           ("concatenate [A, sibling]", "np.concatenate", [L(A, S)], {}), ("concatenate [sibling, A, B]", "np.concatenate", [L(S, A, B)], {}),
+           ("concatenate [A, array]", "np.concatenate", [L(A, ["arr", "float64", [1] + tail, [fhex(0.5)] * int(np.prod([1] + tail))], B)], {}),
+           ("hstack", "np.hstack", [T(A, B)], {}), ("vstack", "np.vstack", [L(A, B)], {}), ("stack", "np.stack", [L(A, B)], {}),
+           ("stack axis=1", "np.stack", [T(A, B)], {"axis": ["lit", 1]}), ("column_stack", "np.column_stack", [T(A, B, S)], {}),
+           ("dstack", "np.dstack", [L(A, B)], {}), ("append", "np.append", [A, C], {}), ("block", "np.block", [L(A, B)], {}),
+           ("r_", "np.r_", [A, C], {}), ("c_", "np.c_", [A, B], {}),
+           ("where(mask, A, B)", "np.where", [mask, A, B], {}), ("where(mask, B, A)", "np.where", [mask, B, A], {}),
+           ("where(bit field, A, B)", "np.where", [bit, A, B], {}) if not tail else None,
+           ("where(A > c, A, B)", "np.where", [["cmp", "gt", cmpA, ["int", "1"]], A, B], {}),
+           ("select", "np.select", [L(mask, ["arr", "bool", [n] + [1] * len(tail), [i % 2 == 0 for i in range(n)]]), L(A, B)], {}),
+           ("choose", "np.choose", [["arr", "int64", [n] + [1] * len(tail), [i % 2 for i in range(n)]], L(A, B)], {}),
+           ("isin(A, C)", "np.isin", [A, C], {}), ("isin(C, A)", "np.isin", [C, A], {}), ("isin(A, B) invert", "np.isin", [A, B], {"invert": ["lit", True]}),
+           ("intersect1d", "np.intersect1d", [A, C], {}), ("union1d", "np.union1d", [A, C], {}), ("setdiff1d", "np.setdiff1d", [C, A], {}),
+           ("setxor1d", "np.setxor1d", [A, B], {}),
+           ("array_equal(A, B)", "np.array_equal", [A, B], {}), ("array_equal(A, C)", "np.array_equal", [A, C], {}),
+           ("array_equiv", "np.array_equiv", [B, A], {}), ("allclose", "np.allclose", [A, B], {}), ("isclose", "np.isclose", [A, B], {"rtol": ["lit", 0.0], "atol": ["lit", 0.0]}),
+           ("searchsorted(sorted A, C)", "np.searchsorted", [["sorted", A], C], {}) if not tail else None,
+           ("searchsorted side", "np.searchsorted", [["sorted", C], A], {"side": ["lit", "right"]}) if not tail else None,
+           ("digitize", "np.digitize", [C, ["sorted", A]], {}) if not tail else None,
+           ("interp", "np.interp", [C, ["sorted", A], B], {}) if not tail else None,
+           ("lexsort", "np.lexsort", [T(A, B)], {}), ("outer", "np.outer", [A, C], {}), ("subtract.outer", "np.subtract.outer", [C, A], {}),
+           ("dot", "np.dot", [A, B], {}) if not tail else None, ("vdot", "np.vdot", [A, B], {}), ("inner", "np.inner", [A, B], {}),
+           ("cross", "np.cross", [A, B], {}) if tail == [3] else None,
+           ("histogram2d", "np.histogram2d", [A, B], {"bins": ["lit", 3]}) if not tail else None,
+           ("histogram bins=sorted C", "np.histogram", [A], {"bins": ["sorted", C]}) if not tail else None,
+           ("maximum", "np.maximum", [A, B], {}), ("minimum", "np.minimum", [B, A], {}), ("hypot", "np.hypot", [A, B], {}),
+           ("arctan2", "np.arctan2", [A, B], {}), ("fmax", "np.fmax", [A, B], {}), ("copysign", "np.copysign", [A, B], {}),
+           ("add", "np.add", [A, B], {}), ("subtract", "np.subtract", [A, B], {}), ("multiply", "np.multiply", [A, S], {}), ("divide", "np.divide", [B, A], {}),
+           ("subtract out where", "np.subtract", [A, B], {"out": ["fill", "float64", [n] + tail, 0], "where": mask}),
+           ("hypot out where(A != 0)", "np.hypot", [A, B], {"out": ["fill", "float64", [n] + tail, 0], "where": ["cmp", "ne", cmpA, ["int", "0"]]}),
+           ("maximum.reduce [A, B]", "np.maximum.reduce", [L(A, B)], {}), ("add.reduce (A, B, S)", "np.add.reduce", [T(A, B, S)], {}),
+           ("A + B", "operator.add", [A, B], {}), ("A - B", "operator.sub", [A, B], {}), ("B - A", "operator.sub", [B, A], {}),
+           ("A * S", "operator.mul", [A, S], {}), ("A / B", "operator.truediv", [A, B], {}), ("A // B", "operator.floordiv", [A, B], {}),
+           ("copyto(view source)", "np.copyto", [["fill", "float64", [n] + tail, 0], B], {"where": mask}),
+           ("putmask(values two views)", "np.putmask", [["fill", "float64", [n + m] + tail, 0],
+                                                       ["arr", "bool", [n + m] + [1] * len(tail), [i % 2 == 0 for i in range(n + m)]], A], {})]
+    if not scaled:        # comparisons of scaled views are excluded by the property
+        out += [("A < B", "operator.lt", [A, B], {}), ("A <= S", "operator.le", [A, S], {}), ("A == B", "operator.eq", [A, B], {}),
+                ("A != S", "operator.ne", [A, S], {}), ("A >= B", "operator.ge", [A, B], {}), ("less", "np.less", [A, B], {}),
+                ("equal out", "np.equal", [A, B], {"out": ["fill", "bool", [n] + tail, 0], "where": mask}),
+                ("bitwise_and", "np.bitwise_and", [A, B], {}), ("left_shift", "np.left_shift", [A, S], {}),
+                ("bincount weights", "np.bincount", [A], {"weights": B}), ("add.at(indices A, values B)", "np.add.at", [["fill", "float64", [256], 0], A, B], {}),
+                ("take(indices view)", "np.take", [["arr", "int64", [300], list(range(300))], A], {})]
+    return [q for q in out if q is not None]
+
+
+def sweep_multi_view(sw, sfs):
+    ctx, rng = sw.ctx, sw.ctx.rng
+    case = 0
+    # ---- scaled views of several records
+    for rep in range(ctx.n(2, 10)):
+        for how in CLOSENESS:
+            for dim, k in (("x", None), ("y", None), ("z", None), ("e", 1), ("e", 2), ("e", 3)):
+                if not ctx.thorough() and rng.random() < 0.34 and dim in "yz":
+                    continue
+                n, m = rng.choice([1, 3, 6, 9]), rng.choice([0, 1, 4, 7])
+                data = scaled_family(rng, how, dim, k, n, m)
+                case += 1
+                data["case"] = case
+                env = build(data)
+                d = data["dim"]
+                tail = list(env["get"]().shape[1:])
+                sib = ("xyz"["xyz".index(d) + 1 - 3] if d in "xyz" else rng.choice("xyz")) if not tail else d
+                tag = "scaled" + ("" if not tail else f" {tail[0]}-element") + (" xyz" if d in "xyz" else " extra" if not tail else "")
+                ctx.count(f"multi-view scalings {how}")
+                for name, fn, args, kw in multi_view_calls(rng, n, m, tail, ["rec", 0, d], ["rec", 1, d], ["rec", 2, d], ["rec", 0, sib],
+                                                          ["rec", 0, first_bit_view(data["format"])], True):
+                    sw.check(f"multi-view {tag} {name} (scalings {how})", data, ["call", fn, args, kw], env, ("mv", case, name), quiet_viewraises=False)
+    # ---- sub-fields: same byte / another byte / another record of the format / of another format (same name, another mask)
+    for rep in range(ctx.n(30, 200)):
+        fmt, name, composed, mask = rng.choice(sfs)
+        n, m = rng.choice([1, 3, 9]), rng.choice([0, 2, 9])
+        data = rand_subfield_data(rng, sfs, n, fmt, name)
+        same = [q for f, q, c, mm in sfs if f == fmt and c == composed and q != name]
+        diff = [q for f, q, c, mm in sfs if f == fmt and c != composed]
+        ofmt = rng.choice([fmt, rng.choice([f for f in sorted({q[0] for q in sfs}) if any(g == f and q == name for g, q, c, mm in sfs)])])
+        rel = rng.choice(["same byte"] * bool(same) + ["another byte"] * bool(diff) + ["same field"])
+        sib = rng.choice(same) if rel == "same byte" else rng.choice(diff) if rel == "another byte" else name
+        data["others"] = [rand_subfield_data(rng, sfs, n, ofmt, name), rand_subfield_data(rng, sfs, m, ofmt, name)]
+        case += 1
+        data["case"] = case
+        env = build(data)
+        why = f"{rel}, other record of {'the same' if ofmt == fmt else 'another'} format"
+        ctx.count(f"multi-view sub-fields {why}")
+        for nm, fn, args, kw in multi_view_calls(rng, n, m, [], ["rec", 0, name], ["rec", 1, name], ["rec", 2, name], ["rec", 0, sib],
+                                                 ["rec", 0, first_bit_view(fmt)], False):
+            sw.check(f"multi-view subfield {nm} ({why})", data, ["call", fn, args, kw], env, ("mv", case, nm))
+    # ---- views of different classes in one call: scaled + sub-field + plain dimension
+    for rep in range(ctx.n(14, 80)):
+        how = rng.choice(CLOSENESS)
+        n, m = rng.choice([2, 5, 9]), rng.choice([0, 3])
+        data = scaled_family(rng, how, rng.choice("xyz"), None, n, m)
+        case += 1
+        data["case"] = case
+        env = build(data)
+        d = data["dim"]
+        fmt = data["format"]
+        f1 = rng.choice([q for f, q, c, mm in sfs if f == fmt])
+        for nm, fn, args, kw in multi_view_calls(rng, n, m, [], ["rec", 0, d], ["rec", 1, f1], ["rec", 2, rng.choice([d, f1, "intensity"])],
+                                                 ["rec", 0, rng.choice([f1, "intensity"])], ["rec", 1, first_bit_view(fmt)], True):
+            sw.check(f"multi-view mixed {nm}", data, ["call", fn, args, kw], env, ("mv", case, nm))
+
+
+# --------------------------------------------------------------------------------------------
+# sizes: records above 2^20 points and of an exact multiple of 65536 points
+# --------------------------------------------------------------------------------------------
+def sweep_sizes(sw, sfs):
+    ctx, rng = sw.ctx, sw.ctx.rng
+    sizes = [2 ** 20 + 3, 2 * 65536] if not ctx.thorough() else [2 ** 20 + 3, 2 * 65536, 65536, 2 ** 21, 2 ** 20 - 1]
+    for n in sizes:
+        fmt, name, composed, mask = rng.choice([q for q in sfs if q[0] in (0, 1, 6)])
+        maxv = mask >> lsb_of(mask)
+        data = {"kind": "subfield", "format": fmt, "field": name, "pattern": ["pattern", n, rng.choice([1, 3, 7, 37, 101]), rng.randrange(256)], "via": "item"}
+        env = build(data)
+        exprs = [["op", op, ["int", str(c)]] for op in CMP for c in (1, maxv, maxv + 1)] \
+            + [["op", "lt", ["float", fhex(1.5)]], ["op", "ge", ["np", "uint8", str(maxv)]], ["op", "add", ["int", "1"]], ["op", "eq", ["self"]]] \
+            + [["fn", f] for f in ("np.sum", "np.max", "max()", "min()", "np.unique_counts", "np.count_nonzero", "np.concatenate_self", "np.bincount", "np.array", "np.argmax", "np.mean")] \
+            + [["seq", ["idx", ["slice", 65535, 65538, None]], ["op", "le", ["int", str(maxv)]]], ["seq", ["idx", ["slice", None, None, 65536]], ["fn", "np.array"]],
+               ["seq", ["idx", ["slice", 2 ** 16 - 1, None, None]], ["fn", "np.sum"]], ["idx", ["int", n - 1]], ["idx", ["int", 65536]],
+               ["call", "np.add", [["self"], ["int", "1"]], {"out": ["fill", "float64", [n], 0], "where": ["cmp", "ne", ["self"], ["int", "0"]]}],
+               ["call", "np.concatenate", [["lst", [["rec", 0, name, ["slice", None, 65536, None]], ["rec", 0, name, ["slice", 65536, None, None]]]]], {}],
+               ["call", "np.isin", [["self"], ["lit", [0, maxv]]], {}]]
+        for e in exprs:
+            sw.check(f"size subfield {expr_str(e).split('(')[0][:24]} n={'2^20+3' if n == 2 ** 20 + 3 else n}", data, e, env, ("size", n, str(e)))
+        sdata = {"kind": "scaled", "format": rng.choice([0, 3, 6]), "scales": [fhex(rng.choice(SCALES)) for _ in range(3)],
+                 "offsets": [fhex(rng.choice(OFFSETS)) for _ in range(3)], "xyz": ["pattern", n, rng.choice([1, 977, 4099]), rng.randrange(-10 ** 6, 10 ** 6)],
+                 "via": "item", "dim": rng.choice("xyz")}
+        env = build(sdata)
+        d = sdata["dim"]
+        exprs = [["op", op, o] for op in ARITH for o in (["int", "2"], ["float", fhex(0.5)])] \
+            + [["fn", f] for f in ("np.sum", "np.max", "np.min", "max()", "min()", "np.mean", "np.concatenate_self", "np.array", "np.argmax", "np.ptp", "np.unique")] \
+            + [["seq", ["idx", ["slice", 65535, 65538, None]], ["fn", "np.array"]], ["seq", ["idx", ["slice", None, None, 65536]], ["fn", "max()"]],
+               ["seq", ["idx", ["slice", 2 ** 16, None, None]], ["fn", "min()"]], ["idx", ["int", n - 1]], ["idx", ["int", 65536]],
+               ["call", "np.multiply", [["self"], ["float", fhex(2.0)]], {"out": ["fill", "float64", [n], 0], "where": ["cmp", "gt", ["rec", 0, d.upper()], ["int", "0"]]}],
+               ["call", "np.concatenate", [["lst", [["rec", 0, d, ["slice", None, 65536, None]], ["rec", 0, d, ["slice", 65536, None, None]]]]], {}],
+               ["call", "np.hypot", [["self"], ["rec", 0, "xyz"[("xyz".index(d) + 1) % 3]]], {}]]
+        for e in exprs:
+            sw.check(f"size scaled {expr_str(e).split('(')[0][:24]} n={'2^20+3' if n == 2 ** 20 + 3 else n}", sdata, e, env, ("size", n, str(e)))
+
+
 def run_sweep(ctx):
     sw = Sweep(ctx)
     sfs = sub_fields()
@@ -921,6 +1594,9 @@ def run_sweep(ctx):
         sweep_scaled(sw, ctx.n(60, 600))
         sweep_scaled_multi(sw)
         sweep_stale(sw, sfs, ctx.n(300, 3000))
+        sweep_keywords(sw, sfs)
+        sweep_multi_view(sw, sfs)
+        sweep_sizes(sw, sfs)
     return sw
 
 
@@ -1063,7 +1739,20 @@ def correspond(ctx):
         "negative indices, steps, empty selections), each followed by arithmetic, a numpy function, the result's own max()/min() "
         "(also with initial=/where=) or a second index; for every (2|3 elements, scale pattern, offset pattern, grid type): max/min/"
         "np.max/np.min/ptp without arguments and with axis=/keepdims=/initial=/where=/out=, sum, mean, on the view and on 10 "
-        "selections of it (mask, slice, list, (mask, ..), (slice, column list/slice) = a view of a subset of the elements, ...); views kept while the record is modified through another handle. "
+        "selections of it (mask, slice, list, (mask, ..), (slice, column list/slice) = a view of a subset of the elements, ...); views kept while the record is modified through another handle; "
+        "calls with the optional keywords: 28 binary / 18 unary / 3 two-output ufuncs x the view as first / second / both inputs x the other input "
+        "{python int, float, numpy int / float, int / float / uint8 arrays, another view of the record, a view of another record} x keywords "
+        "{out= (buffers of 9 dtypes pre-filled with a non-zero pattern, also a tuple, a broadcasting buffer, a partial tuple), where= (masks "
+        "with False entries, a full-shape mask, a scalar, a mask computed from the view: v != 0, a view), dtype=, casting=, subok/order}, the "
+        "methods reduce / accumulate / outer / reduceat / at and ~45 numpy functions with out= / where= / dtype= / axis= / initial= / "
+        "weights= / bins= / copyto / putmask / put / place, np.asarray(view, dtype=) for 8 dtypes: the returned value, the contents of every "
+        "buffer AFTER the call and whether the buffer itself is returned must be numpy's; numpy functions taking SEVERAL views (~85 forms of "
+        "concatenate, stack, hstack, vstack, column_stack, append, block, r_, where, select, choose, isin, set functions, array_equal, allclose, "
+        "searchsorted, digitize, interp, lexsort, outer, dot, histogram2d, maximum, hypot, arctan2 ..., view <op> view) where the views are "
+        "the same dimension of DIFFERENT records whose scalings are identical / 1 ulp / 1e-9 / 1e-6 relative / one grid step of offset / "
+        "1.0 of offset apart / clearly different, the next coordinate of the same record related the same way, chunks of one record, "
+        "sub-fields of the same byte / another byte / another record of the same or of another format (same name, another mask), and "
+        "views of different classes in one call (on the numpy side EVERY view is np.array(view)); records of 2^20+3 and 2*65536 points. "
         "E(view) is compared with E(np.array(view)): kind of values, shape up to length-1 axes, values (binary64 bit patterns). "
         "non-trivial = both sides return a result; distinct by (mask or dataset, expression). Expressions raising on both sides, "
         "raising on the view only, or whose result cannot be materialised are counted as 'no result'. "
@@ -1254,6 +1943,65 @@ def correspond(ctx):
                 ok = (not isinstance(exp, str)) and agree(exp, iv)
                 if not ok:
                     dis.append({"kind": f"scaled {r}() after {cls}", "input": {"data": data, "expr": expr}, "model": mo[:120], "impl": describe(iv)})
+        # ---- keywords: np.<ufunc>(view, c, out=buffer, where=mask, dtype=int64) against the model's sfv_ufunc_where
+        cases = []
+        for _ in range(ctx.n(300, 3000)):
+            fmt, name, composed, mask = ctx.rng.choice(sfs)
+            n = ctx.rng.choice([0, 1, 2, 9])
+            col = bytes(ctx.rng.randrange(256) for _ in range(n))
+            wm = [ctx.rng.random() < 0.5 for _ in range(n)]
+            out = [ctx.rng.choice([-1, 7, 1000, -999, ctx.rng.randrange(-10 ** 6, 10 ** 6)]) for _ in range(n)]
+            opn, c = ctx.rng.choice(["add", "sub", "mul"]), ctx.rng.randrange(0, 10)
+            env = build({"kind": "subfield", "format": fmt, "field": name, "bytes": col.hex()})
+            buf = np.array(out, dtype=np.int64)
+            try:
+                r = {"add": np.add, "sub": np.subtract, "mul": np.multiply}[opn](env["get"](), c, out=buf, where=np.array(wm, dtype=bool), dtype=np.int64)
+                im = zl(buf.tolist()) if r is buf else "another array is returned"
+            except Exception as ex:
+                im = "err " + common.exc_kind(ex)
+            cases.append((f"ufwhere {mask} x{col.hex()} {','.join('T' if b else 'F' for b in wm) or '-'} {zl(out)} {opn} {c}", im,
+                          {"format": fmt, "field": name, "bytes": col.hex(), "where": wm, "out": out, "ufunc": opn, "operand": c}))
+        for (cmd, im, desc), mo in zip(cases, common.run_model([c[0] for c in cases], name="c10")):
+            ctx.traces += 1
+            ctx.count("model ufunc out= where=")
+            ctx.case(cmd, nontrivial=True)
+            if im != mo:
+                dis.append({"kind": "keyword-call subfield ufunc out where", "input": desc, "model": mo[:120], "impl": im[:120]})
+        # ---- several scaled views of different records in one np.concatenate against the model's concatenate_views
+        cases = []
+        for _ in range(ctx.n(200, 2000)):
+            how = ctx.rng.choice(CLOSENESS)
+            dim, k = ctx.rng.choice([("x", None), ("y", None), ("z", None), ("e", 1), ("e", 2), ("e", 3)])
+            fam = scaled_family(ctx.rng, how, dim, k, ctx.rng.choice([0, 1, 3, 6]), ctx.rng.choice([0, 1, 4]))
+            envs = [build(fam)] + [build(o) for o in fam["others"]]
+            pieces = [ctx.rng.randrange(3) for _ in range(ctx.rng.choice([1, 2, 2, 3]))]
+            toks, svec, ovec = [], [], []
+            for j in pieces:
+                g, base = envs[j]["grid"](), len(svec)
+                svec += envs[j]["svec"]
+                ovec += envs[j]["ovec"]
+                if g.ndim == 1:
+                    toks.append(f"1s {base} {base} {zl(int(q) for q in g.tolist())}")
+                else:
+                    toks.append(f"2s {g.shape[1]} {base} " + (";".join(zl(int(q) for q in r) for r in g.tolist()) if len(g) else "-"))
+            views = [envs[j]["get"]() for j in pieces]
+            seq = views if ctx.rng.random() < 0.5 else tuple(views)
+            iv = ev(lambda: np.concatenate(seq))
+            penv = {"grid": (lambda g=envs[0]["grid"](): g), "svec": svec, "ovec": ovec}
+            cases.append(("concat " + " ".join(toks), penv, iv, {"data": fam, "pieces": pieces, "scalings": how}))
+        for (cmd, penv, iv, desc), mo in zip(cases, common.run_model([c[0] for c in cases], name="c10")):
+            ctx.traces += 1
+            ctx.count("model concatenate of several views")
+            ctx.case(cmd, nontrivial=True)
+            if mo.startswith("fail"):
+                dis.append({"kind": "model driver", "input": {"cmd": cmd[:200]}, "model": mo[:120], "impl": ""})
+                continue
+            exp = nd_expected(mo.split(" ")[0], penv)
+            ok = (iv[0] != "ok") if exp is None else (iv[0] == "ok" and squeeze_shape(np.asarray(iv[1])) == squeeze_shape(np.asarray(exp))
+                                                     and bits(iv[1]) == bits(exp))
+            if not ok:
+                dis.append({"kind": f"multi-view scaled concatenate (scalings {desc['scalings']})", "input": desc, "model": mo.split(" ")[0][:120],
+                            "impl": describe(iv)})
         # ---- the three routes of max/min
         for c in classes:
             for m in "TF":
